@@ -29,7 +29,9 @@ func init() {
 		Rule: "E-ENV crash enumeration on the real stores (message board, threaded news, accounts, ban list) over a scratch config directory: every history of up to 2 (thorough 3) updates from a 15-update alphabet; " +
 			"for every update of the history and every boundary between two file-mutating system calls of that update (open/create/truncate, write, close, rename, unlink — counted by the vos shim, whose decomposition is validated against strace of the uninstrumented code) " +
 			"the process is 'killed' there, all four stores are re-constructed from the directory with the real constructors, compared with the reference (complete old or complete new value, everything acknowledged earlier intact), and the rest of the history is then run on the restarted stores " +
-			"(so leftovers of the crash are exercised) and compared again; distinct = distinct (update kind, crash step, outcome) triples",
+			"(so leftovers of the crash are exercised) and compared again. " +
+			"Real kills: the uninstrumented stores run in a helper process under strace, which delivers SIGKILL on entry to the j-th file system call, for every j of every update kind from the initial directory (thorough: also after every one-update prefix); the dead process's directory is judged by the same oracle and must equal the directory the simulated crash before the corresponding vos step leaves (coverage.real_kill_points / real_kill_equal_to_simulated); " +
+			"distinct = distinct (update kind, crash step, outcome) triples",
 		Assumptions: []string{"crash = process kill at a system-call boundary (completed system calls survive in the page cache); torn single writes and power loss are out of scope", "the kernel's rename is atomic"},
 		Run:            runC20,
 		Replay:         replayC20,
@@ -515,6 +517,22 @@ func runC20(w *explore.Worker) {
 	if w.Index == 0 {
 		c20Conformance(w)
 	}
+	// real SIGKILLs of the uninstrumented code: every file system call of every update kind from the
+	// initial directory (thorough: also after every one-update prefix)
+	for _, op := range c20Alphabet {
+		if w.Next() {
+			c20RealKill(w, nil, op, 0)
+		}
+	}
+	if w.Thorough {
+		for _, p := range c20Alphabet {
+			for _, op := range c20Alphabet {
+				if w.Next() {
+					c20RealKill(w, []string{p}, op, 0)
+				}
+			}
+		}
+	}
 	hs := c20Histories(depth)
 	points := 0
 	for hi, h := range hs {
@@ -548,6 +566,11 @@ func runC20(w *explore.Worker) {
 }
 
 func replayC20(w *explore.Worker, raw json.RawMessage) {
+	var k c20KillCase
+	if err := json.Unmarshal(raw, &k); err == nil && k.RealKill {
+		c20RealKill(w, k.Prefix, k.Op, k.Call)
+		return
+	}
 	var c c20Case
 	if err := json.Unmarshal(raw, &c); err != nil {
 		w.Broken("bad replay: %v", err)
@@ -558,7 +581,94 @@ func replayC20(w *explore.Worker, raw json.RawMessage) {
 
 // ---- binding the shim's step decomposition to reality ----
 
-var straceLine = regexp.MustCompile(`^(\d+\s+)?(\w+)\((.*)\)\s+=\s+(-?\d+)`)
+var straceLine = regexp.MustCompile(`^(\d+\s+)?(\w+)\((.*)\)\s+=\s+(-?\d+|\?)`)
+
+const c20TraceSet = "open,openat,creat,write,close,rename,renameat,renameat2,unlink,unlinkat,fsync,fdatasync,ftruncate"
+
+// c20Call is one file-mutating system call on the config directory, after the MARK line.
+type c20Call struct {
+	Ord  int    // 1-based ordinal among the system calls of the same name in the trace (what strace's when= counts)
+	Line int    // 1-based ordinal among all traced system calls
+	Op   string // "open x.yaml", "write x.yaml", ... in the vocabulary of the vos shim
+	Call string // system call name
+}
+
+// c20ParseTrace extracts the file-mutating system calls on dir that follow the MARK line.
+func c20ParseTrace(raw, dir string) (calls []c20Call, total int) {
+	fds := map[string]string{}
+	perName := map[string]int{}
+	started := false
+	for _, line := range strings.Split(raw, "\n") {
+		m := straceLine.FindStringSubmatch(line)
+		if m == nil {
+			continue
+		}
+		total++
+		call, args, ret := m[2], m[3], m[4]
+		perName[call]++
+		if call == "write" && strings.HasPrefix(args, "2, \"MARK") {
+			started = true
+			continue
+		}
+		if !started {
+			continue
+		}
+		add := func(op string) { calls = append(calls, c20Call{Ord: perName[call], Line: total, Op: op, Call: call}) }
+		switch call {
+		case "openat", "open", "creat":
+			if !strings.Contains(args, dir) || ret == "-1" {
+				continue
+			}
+			if !(strings.Contains(args, "O_WRONLY") || strings.Contains(args, "O_RDWR") || strings.Contains(args, "O_CREAT") || call == "creat") {
+				continue
+			}
+			q := strings.SplitN(args[strings.Index(args, dir):], "\"", 2)[0]
+			if ret != "?" {
+				fds[ret] = q
+			}
+			add("open " + filepath.Base(q))
+		case "write":
+			fd := strings.SplitN(args, ",", 2)[0]
+			if p, ok := fds[fd]; ok {
+				add("write " + filepath.Base(p))
+			}
+		case "fsync", "fdatasync", "ftruncate":
+			fd := strings.TrimSpace(strings.SplitN(args, ",", 2)[0])
+			if p, ok := fds[fd]; ok {
+				add(map[string]string{"fsync": "fsync", "fdatasync": "fsync", "ftruncate": "truncate"}[call] + " " + filepath.Base(p))
+			}
+		case "close":
+			fd := strings.TrimSpace(args)
+			if p, ok := fds[fd]; ok {
+				add("close " + filepath.Base(p))
+				delete(fds, fd)
+			}
+		case "rename", "renameat", "renameat2":
+			if strings.Contains(args, dir) {
+				q := strings.SplitN(args[strings.Index(args, dir):], "\"", 2)[0]
+				add("rename " + filepath.Base(q))
+			}
+		case "unlink", "unlinkat":
+			if strings.Contains(args, dir) {
+				q := strings.SplitN(args[strings.Index(args, dir):], "\"", 2)[0]
+				add("unlink " + filepath.Base(q))
+			}
+		}
+	}
+	return calls, total
+}
+
+// collapse merges consecutive writes to the same file (one logical write may be several syscalls).
+func c20Collapse(l []string) []string {
+	var o []string
+	for _, s := range l {
+		if len(o) > 0 && o[len(o)-1] == s && strings.HasPrefix(s, "write ") {
+			continue
+		}
+		o = append(o, s)
+	}
+	return o
+}
 
 // c20Conformance runs each update kind once in an uninstrumented subprocess under strace and
 // compares the file-mutating system calls on the config directory with the shim's step log.
@@ -588,7 +698,7 @@ func c20Conformance(w *explore.Worker) {
 		// traced run of the uninstrumented code on an identical directory
 		dir2 := c20MakeDir()
 		trace := filepath.Join(dir2, "..", filepath.Base(dir2)+".strace")
-		cmd := exec.Command("strace", "-f", "-o", trace, "-e", "trace=open,openat,creat,write,close,rename,renameat,renameat2,unlink,unlinkat,fsync,fdatasync,ftruncate", refBin, dir2, op)
+		cmd := exec.Command("strace", "-f", "-o", trace, "-e", "trace="+c20TraceSet, refBin, dir2, op)
 		cmd.Env = append(os.Environ(), "GOMAXPROCS=1")
 		if out, err := cmd.CombinedOutput(); err != nil {
 			w.Note("strace_conformance", fmt.Sprintf("skipped: strace failed: %v %s", err, clip(string(out), 200)))
@@ -599,73 +709,12 @@ func c20Conformance(w *explore.Worker) {
 		raw, _ := os.ReadFile(trace)
 		os.Remove(trace)
 		os.RemoveAll(dir2)
+		calls, _ := c20ParseTrace(string(raw), dir2)
 		var real []string
-		fds := map[string]string{}
-		started := false
-		for _, line := range strings.Split(string(raw), "\n") {
-			m := straceLine.FindStringSubmatch(line)
-			if m == nil {
-				continue
-			}
-			call, args, ret := m[2], m[3], m[4]
-			if call == "write" && strings.HasPrefix(args, "2, \"MARK") {
-				started = true
-				continue
-			}
-			if !started {
-				continue
-			}
-			switch call {
-			case "openat", "open", "creat":
-				if !strings.Contains(args, dir2) || ret == "-1" {
-					continue
-				}
-				if !(strings.Contains(args, "O_WRONLY") || strings.Contains(args, "O_RDWR") || strings.Contains(args, "O_CREAT") || call == "creat") {
-					continue
-				}
-				q := strings.SplitN(args[strings.Index(args, dir2):], "\"", 2)[0]
-				fds[ret] = q
-				real = append(real, "open "+filepath.Base(q))
-			case "write":
-				fd := strings.SplitN(args, ",", 2)[0]
-				if p, ok := fds[fd]; ok {
-					real = append(real, "write "+filepath.Base(p))
-				}
-			case "fsync", "fdatasync", "ftruncate":
-				fd := strings.TrimSpace(strings.SplitN(args, ",", 2)[0])
-				if p, ok := fds[fd]; ok {
-					real = append(real, map[string]string{"fsync": "fsync", "fdatasync": "fsync", "ftruncate": "truncate"}[call]+" "+filepath.Base(p))
-				}
-			case "close":
-				fd := strings.TrimSpace(args)
-				if p, ok := fds[fd]; ok {
-					real = append(real, "close "+filepath.Base(p))
-					delete(fds, fd)
-				}
-			case "rename", "renameat", "renameat2":
-				if strings.Contains(args, dir2) {
-					q := strings.SplitN(args[strings.Index(args, dir2):], "\"", 2)[0]
-					real = append(real, "rename "+filepath.Base(q))
-				}
-			case "unlink", "unlinkat":
-				if strings.Contains(args, dir2) {
-					q := strings.SplitN(args[strings.Index(args, dir2):], "\"", 2)[0]
-					real = append(real, "unlink "+filepath.Base(q))
-				}
-			}
+		for _, c := range calls {
+			real = append(real, c.Op)
 		}
-		// collapse consecutive writes to the same file (one logical write may be several syscalls)
-		collapse := func(l []string) []string {
-			var o []string
-			for _, s := range l {
-				if len(o) > 0 && o[len(o)-1] == s && strings.HasPrefix(s, "write ") {
-					continue
-				}
-				o = append(o, s)
-			}
-			return o
-		}
-		a, b := strings.Join(collapse(shim), ", "), strings.Join(collapse(real), ", ")
+		a, b := strings.Join(c20Collapse(shim), ", "), strings.Join(c20Collapse(real), ", ")
 		if a == b {
 			validated++
 		} else {
@@ -676,6 +725,212 @@ func c20Conformance(w *explore.Worker) {
 	w.Note("strace_conformance", fmt.Sprintf("%d of %d update kinds: system-call sequence of the uninstrumented code equals the shim's step log", validated, len(c20Alphabet)))
 	if len(mismatches) > 0 {
 		w.Broken("C20: the vos step decomposition does not match the traced system calls: %s", strings.Join(mismatches, " || "))
+	}
+}
+
+// ---- real kills: the uninstrumented code, SIGKILLed by strace on entry to its j-th file system call ----
+
+// c20Snapshot describes a config directory: which files exist, which are empty, whether every store
+// loads and what each holds.  (Raw bytes are not compared: password salts and dates differ per run.)
+func c20Snapshot(dir string) string {
+	var l []string
+	_ = filepath.Walk(dir, func(p string, fi os.FileInfo, err error) error {
+		if err != nil || fi.IsDir() {
+			return nil
+		}
+		rel, _ := filepath.Rel(dir, p)
+		e := "nonempty"
+		if fi.Size() == 0 {
+			e = "EMPTY"
+		}
+		l = append(l, rel+":"+e)
+		return nil
+	})
+	sort.Strings(l)
+	s, errs := c20Open(dir)
+	for _, st := range []string{"board", "news", "accts", "bans"} {
+		if e, bad := errs[st]; bad {
+			l = append(l, st+" DOES NOT LOAD: "+strings.ReplaceAll(e.Error(), dir, "$D"))
+		} else {
+			l = append(l, st+"="+s.dump(st))
+		}
+	}
+	return strings.Join(l, "\n")
+}
+
+type c20KillCase struct {
+	RealKill bool     `json:"real_kill"`
+	Prefix   []string `json:"prefix"`
+	Op       string   `json:"op"`
+	Call     int      `json:"kill_before_file_call"` // 1-based index among the update's file system calls
+}
+
+// c20RealKill: for the update op after the uninterrupted prefix, the uninstrumented helper is run
+// under strace once per file system call j of the update and killed (SIGKILL delivered on entry to
+// the call, which therefore does not execute).  The directory the dead process leaves behind is
+// (a) judged by the property's own oracle — every store loads, the store in flight holds the old or
+// the new value, the others are untouched — and (b) compared with the directory the simulated crash
+// before the corresponding vos step leaves, which is what binds the exhaustive simulated
+// enumeration to real process deaths.  only>0 restricts the run to one call (replay).
+func c20RealKill(w *explore.Worker, prefix []string, op string, only int) {
+	refBin := os.Getenv("VERIF_C20REF")
+	if refBin == "" {
+		return
+	}
+	if _, err := exec.LookPath("strace"); err != nil {
+		return
+	}
+	env := append(os.Environ(), "GOMAXPROCS=1")
+	mkReal := func() (string, bool) {
+		d := c20MakeDir()
+		for _, p := range prefix {
+			cmd := exec.Command(refBin, d, p)
+			cmd.Env = env
+			if err := cmd.Run(); err != nil {
+				w.Note("real_kill", fmt.Sprintf("skipped: helper failed on prefix %q: %v", p, err))
+				os.RemoveAll(d)
+				return "", false
+			}
+		}
+		return d, true
+	}
+	// reference trace (no kill): ordinals of the update's file system calls
+	dirT, ok := mkReal()
+	if !ok {
+		return
+	}
+	trace := filepath.Join(dirT, "..", filepath.Base(dirT)+".strace")
+	cmd := exec.Command("strace", "-o", trace, "-e", "trace="+c20TraceSet, refBin, dirT, op)
+	cmd.Env = env
+	if out, err := cmd.CombinedOutput(); err != nil {
+		w.Note("real_kill", fmt.Sprintf("skipped: strace failed: %v %s", err, clip(string(out), 200)))
+		os.RemoveAll(dirT)
+		os.Remove(trace)
+		return
+	}
+	raw, _ := os.ReadFile(trace)
+	os.Remove(trace)
+	os.RemoveAll(dirT)
+	calls, _ := c20ParseTrace(string(raw), dirT)
+
+	// model and shim step log of the same update after the same prefix
+	model := c20Initial()
+	for _, p := range prefix {
+		m2 := model.clone()
+		if m2.apply(p) {
+			model = m2
+		}
+	}
+	before, after := model.clone(), model.clone()
+	accepted := after.apply(op)
+	var shim []vos.Step
+	{
+		d := c20MakeDir()
+		s, _ := c20Open(d)
+		for _, p := range prefix {
+			runUpdate(s, p, 0, nil)
+		}
+		var log stepLog
+		runUpdate(s, op, 0, &log)
+		shim = log.steps
+		os.RemoveAll(d)
+	}
+	// map every real call to the vos step it belongs to (-1: a continuation write without a step of its own)
+	stepOf := make([]int, len(calls))
+	si := 0
+	for j, c := range calls {
+		switch {
+		case si < len(shim) && c.Op == shim[si].Op+" "+filepath.Base(shim[si].Path):
+			stepOf[j] = si + 1
+			si++
+		case j > 0 && c.Op == calls[j-1].Op && strings.HasPrefix(c.Op, "write "):
+			stepOf[j] = -1
+		default:
+			w.Note("real_kill", fmt.Sprintf("skipped for %q after %v: call %d (%s) has no vos step", op, prefix, j+1, c.Op))
+			return
+		}
+	}
+	st := storeOf(op)
+	for j, c := range calls {
+		if only > 0 && j+1 != only {
+			continue
+		}
+		kc := c20KillCase{RealKill: true, Prefix: prefix, Op: op, Call: j + 1}
+		fail := func(clause, detail string) {
+			w.Violation("C20/realkill/"+clause+"/update="+strings.Split(op, ":")[0], fmt.Sprintf("case %s: %s", js(kc), detail), 1000+len(prefix)*100+j, kc)
+		}
+		w.Eval()
+		var dirR, got string
+		landed := false
+		for attempt := 0; attempt < 3 && !landed; attempt++ {
+			var ok bool
+			if dirR, ok = mkReal(); !ok {
+				return
+			}
+			tr := filepath.Join(dirR, "..", filepath.Base(dirR)+".strace")
+			cmd := exec.Command("strace", "-o", tr, "-e", "trace="+c20TraceSet, "-e", fmt.Sprintf("inject=%s:signal=KILL:when=%d", c.Call, c.Ord), refBin, dirR, op)
+			cmd.Env = env
+			_ = cmd.Run() // strace dies with its tracee's signal
+			rawK, _ := os.ReadFile(tr)
+			os.Remove(tr)
+			// did the kill land on entry to the intended call?
+			kcalls, ktotal := c20ParseTrace(string(rawK), dirR)
+			if strings.Contains(string(rawK), "killed by SIGKILL") && ktotal == c.Line && len(kcalls) == j+1 && kcalls[j].Op == c.Op {
+				landed = true
+			} else {
+				os.RemoveAll(dirR)
+			}
+		}
+		if !landed {
+			w.Count("real_kill_not_landed", 1)
+			continue
+		}
+		w.Count("real_kill_points", 1)
+		got = c20Snapshot(dirR)
+		// (a) the property itself on the leftovers of the dead process
+		stores, rerrs := c20Open(dirR)
+		for s2, e := range rerrs {
+			fail("store-does-not-load-after-kill/"+s2, fmt.Sprintf("killed on entry to file call %d (%s) of %q: %v", j+1, c.Op, op, e))
+		}
+		outcome := "?"
+		if len(rerrs) == 0 {
+			d := stores.dump(st)
+			switch {
+			case d == before.dump(st):
+				outcome = "old"
+			case accepted && d == after.dump(st):
+				outcome = "new"
+			default:
+				fail("neither-old-nor-new-after-kill/"+st, fmt.Sprintf("killed on entry to file call %d (%s) of %q: store holds %q, old value %q, new value %q", j+1, c.Op, op, clip(d, 300), clip(before.dump(st), 300), clip(after.dump(st), 300)))
+			}
+			for _, other := range []string{"board", "news", "accts", "bans"} {
+				if other != st && stores.dump(other) != model.dump(other) {
+					fail("unrelated-store-changed-by-kill/"+other, fmt.Sprintf("%q vs %q", stores.dump(other), model.dump(other)))
+				}
+			}
+		}
+		os.RemoveAll(dirR)
+		// (b) the simulated crash before the corresponding vos step leaves the same directory
+		if stepOf[j] > 0 {
+			d := c20MakeDir()
+			s, _ := c20Open(d)
+			for _, p := range prefix {
+				runUpdate(s, p, 0, nil)
+			}
+			_, crashed := runUpdate(s, op, stepOf[j], nil)
+			sim := c20Snapshot(d)
+			os.RemoveAll(d)
+			if !crashed {
+				w.Broken("C20 real-kill: simulated crash before step %d of %q did not happen", stepOf[j], op)
+				return
+			}
+			if sim != got {
+				w.Broken("C20: the directory a real SIGKILL leaves differs from the simulated crash (update %q after %v, file call %d = vos step %d):\nreal:\n%s\nsimulated:\n%s", op, prefix, j+1, stepOf[j], got, sim)
+				return
+			}
+			w.Count("real_kill_equal_to_simulated", 1)
+		}
+		w.Outcome(fmt.Sprintf("realkill %s call=%d %s", strings.Split(op, ":")[0], j+1, outcome))
 	}
 }
 
